@@ -1814,3 +1814,133 @@ Proof.
   destruct (unauthorised_run (ops_for i ops) G Hal U) as (V & Hh & l & L & F).
   exists (g_run G (ops_for i ops)), l. split; [now apply run_proj | auto].
 Qed.
+
+(* ====================================================================== *)
+(* 14. gene names are strings: every spelling is its own gene               *)
+
+(* a Python str: code points 0 .. 0x10FFFF *)
+Definition valid_name (s : list Z) : Prop := Forall (fun c => 0 <= c < name_base) s.
+
+Lemma raw_code_nonneg : forall s, valid_name s -> 0 <= raw_code s.
+Proof.
+  induction s as [|c s IH]; intros H; cbn [raw_code]; [lia|].
+  inversion H as [|? ? Hc Hs]; subst. specialize (IH Hs). unfold name_base in *. lia.
+Qed.
+
+Lemma raw_code_inj : forall s s',
+  valid_name s -> valid_name s' -> raw_code s = raw_code s' -> s = s'.
+Proof.
+  induction s as [|c s IH]; intros [|c' s'] H H' E; cbn [raw_code] in E.
+  - reflexivity.
+  - inversion H' as [|? ? Hc Hs]; subst. pose proof (raw_code_nonneg s' Hs). unfold name_base in *. lia.
+  - inversion H as [|? ? Hc Hs]; subst. pose proof (raw_code_nonneg s Hs). unfold name_base in *. lia.
+  - inversion H as [|? ? Hc Hs]; inversion H' as [|? ? Hc' Hs']; subst.
+    pose proof (raw_code_nonneg s Hs). pose proof (raw_code_nonneg s' Hs').
+    assert (raw_code s = raw_code s' /\ c = c') as [E1 ->] by (unfold name_base in *; lia).
+    f_equal. now apply IH.
+Qed.
+
+Lemma plain_index_spec : forall s i, plain_index s = Some i -> s = [103; 48 + i] /\ 0 <= i <= 9.
+Proof.
+  intros [|g [|d [|x r]]] i H; cbn [plain_index] in H; try discriminate.
+  destruct (g =? 103) eqn:E1; [|discriminate]. destruct (48 <=? d) eqn:E2; [|discriminate].
+  destruct (d <=? 57) eqn:E3; [|discriminate]. cbn [andb] in H. inversion H; subst.
+  apply Z.eqb_eq in E1. apply Z.leb_le in E2. apply Z.leb_le in E3. subst g.
+  split; [f_equal; f_equal; lia | lia].
+Qed.
+
+(* the integer the model keeps for a name determines the string *)
+Lemma name_code_inj : forall s s',
+  valid_name s -> valid_name s' -> name_code s = name_code s' -> s = s'.
+Proof.
+  intros s s' V V' E. unfold name_code in E.
+  pose proof (raw_code_nonneg s V). pose proof (raw_code_nonneg s' V').
+  destruct (plain_index s) as [i|] eqn:P; destruct (plain_index s') as [i'|] eqn:P'.
+  - apply plain_index_spec in P. apply plain_index_spec in P'.
+    destruct P as [-> _]. destruct P' as [-> _]. now subst.
+  - apply plain_index_spec in P. lia.
+  - apply plain_index_spec in P'. lia.
+  - apply raw_code_inj; auto. lia.
+Qed.
+
+(* the name a call is made with (add_gene: the name of the gene handed in);
+   replicate and express name no single gene and change nothing in the genome
+   they are called on *)
+Definition addresses (o : gop) (n : Z) : bool :=
+  match o with
+  | OAdd g => g_name g =? n
+  | OMutate m _ | ORollback m | OSetExpr m _ | OSilence m | OActivate m => m =? n
+  | OReplicate _ _ _ | OExpress _ => false
+  end.
+
+Lemma mutate_lookup_other : forall G m v r n, m <> n ->
+  lookup (tbl (fst (g_mutate G m v r))) n = lookup (tbl G) n.
+Proof.
+  intros G m v r n Hn. unfold g_mutate.
+  destruct (lookup (tbl G) m) as [e|] eqn:L; [|reflexivity].
+  destruct (approved_by G m (value e) v r); cbn [fst add_log set_tbl tbl]; [|reflexivity].
+  apply lookup_put_other. change (key (mkEntry (with_value (e_gene e) v) (e_level e))) with (g_name (e_gene e)).
+  apply lookup_key in L. unfold key in L. congruence.
+Qed.
+
+Lemma set_level_lookup_other : forall G m l n, m <> n ->
+  lookup (tbl (fst (g_set_level G m l))) n = lookup (tbl G) n.
+Proof.
+  intros G m l n Hn. unfold g_set_level.
+  destruct (lookup (tbl G) m) as [e|] eqn:L; [|reflexivity].
+  cbn [fst set_tbl tbl]. apply lookup_put_other.
+  change (key (mkEntry (e_gene e) l)) with (key e). apply lookup_key in L. congruence.
+Qed.
+
+(* one call made with another name leaves the whole entry of n alone: gene
+   (value, type, description, required, default expression) and expression
+   level -- for every allow_mutations setting and every callback *)
+Lemma step_lookup_other : forall G o n, addresses o n = false ->
+  lookup (tbl (fst (g_step G o))) n = lookup (tbl G) n.
+Proof.
+  intros G o n H. destruct o; cbn [g_step addresses fst] in *; try reflexivity;
+    try (apply Z.eqb_neq in H).
+  - unfold g_add. destruct (lookup (tbl G) (g_name g)); [destruct (allow G)|]; cbn [fst set_tbl tbl];
+      try reflexivity; now apply lookup_put_other.
+  - now apply mutate_lookup_other.
+  - unfold g_rollback. destruct (last_approved (mlog G) n0); [now apply mutate_lookup_other | reflexivity].
+  - now apply set_level_lookup_other.
+  - now apply set_level_lookup_other.
+  - now apply set_level_lookup_other.
+Qed.
+
+Lemma run_lookup_other : forall ops G n,
+  (forall o, In o ops -> addresses o n = false) ->
+  lookup (tbl (g_run G ops)) n = lookup (tbl G) n.
+Proof.
+  induction ops as [|o ops IH]; intros G n H; [reflexivity|].
+  rewrite g_run_cons, IH by (intros; apply H; now right).
+  apply step_lookup_other. apply H. now left.
+Qed.
+
+Lemma other_names_untouched_proof : forall W ops i G n,
+  nth_error W i = Some G ->
+  (forall o, In o (ops_for i ops) -> addresses o n = false) ->
+  exists G', nth_error (run W ops) i = Some G' /\ lookup (tbl G') n = lookup (tbl G) n.
+Proof.
+  intros W ops i G n H Ho. exists (g_run G (ops_for i ops)). split.
+  - now apply run_proj.
+  - now apply run_lookup_other.
+Qed.
+
+(* in terms of spellings: whatever is done to genome i under the name s' --
+   and to its relatives under any name -- the gene named s <> s' is untouched *)
+Lemma other_spelling_untouched_proof : forall W ops i G s s',
+  valid_name s -> valid_name s' -> s <> s' ->
+  nth_error W i = Some G ->
+  (forall o n, In o (ops_for i ops) -> addresses o n = true -> n = name_code s') ->
+  exists G', nth_error (run W ops) i = Some G' /\
+             lookup (tbl G') (name_code s) = lookup (tbl G) (name_code s) /\
+             stored G' (name_code s) = stored G (name_code s).
+Proof.
+  intros W ops i G s s' Vs Vs' Hne H Ho.
+  destruct (other_names_untouched_proof W ops i G (name_code s) H) as (G' & R & L).
+  - intros o Hin. destruct (addresses o (name_code s)) eqn:A; [|reflexivity].
+    exfalso. apply Hne. apply name_code_inj; auto. eapply Ho; eauto.
+  - exists G'. repeat split; auto. unfold stored. now rewrite L.
+Qed.
